@@ -487,6 +487,8 @@ func runC07() {
 		}
 	}
 	c.Stats.Rule = "big-number operand sweep; OP_CHECKMULTISIG with count operands 2^20..2^26 on a near-empty stack (must fail without reserving memory: allocation measured); 1200 signature-opcode shapes with a full transaction context (junk signatures/keys, code separators in either script, early OP_RETURN in the unlocking script; implementation only); arbitrary byte strings as unlocking/locking scripts, mutations (bit flip, truncate, splice, byte replace) of the node vectors, every opcode 0..255 with 0..3 arbitrary operands and arbitrary trailing bytes; 16-bit flag words; contexts {no tx, tx + previous output, tx without previous output}; plus ~1 400 (thorough ~8 200) argument combinations of Engine.Execute (nil / empty / mismatching scripts, nil transaction, 0..3 inputs with or without their own unlocking script, nil or script-less previous output, input indices MinInt64..MaxInt64) run with and without a debugger on the implementation and through validate/apply of model/ExecOpts.v on the model. Programs with signature opcodes under a full tx context and P2SH under a full context run on the implementation only (go-only); everything else is also evaluated on the Coq model. After Genesis OP_NUM2BIN is replaced by OP_NOP (its target size is an attacker-chosen allocation up to 2^31-1 bytes: memory policy, out of scope). distinct = distinct (scripts, flags, context); non-trivial = all (every case exercises validation or execution)"
+	// calls on objects that have been used before (c07_history.go); its own random stream
+	histories(common.NewRand(c.Seed ^ 0xc07a11))
 }
 
 // neutralise replaces OP_NUM2BIN at opcode positions by OP_NOP.
